@@ -285,6 +285,9 @@ def oracle(case, out):
         elif k == "R":
             oc, t = o[1:].split("@")
             if script[consumed] != oc:
+                if case.get("owner"):
+                    return (f"obs {i}: the {case['owner']}'s ConnectionState request reported '{oc}' although the gateway "
+                            f"behaved '{script[consumed]}' (ok / f0 = silent / f<status> / none = channel already gone)")
                 return f"obs {i}: harness error, outcome {oc} is not script[{consumed}]"
             consumed += 1
             waiting, last = False, int(t)
